@@ -702,9 +702,17 @@ impl Blockchain {
     }
 
     fn remove_block_transactions(&self, block_hash: &SaitoHash, mempool: &mut Mempool) {
-        mempool
-            .transactions
-            .retain(|_, tx| tx.validate_against_utxoset(&self.utxoset));
+        let utxo_map = &mut mempool.utxo_map;
+        mempool.transactions.retain(|_, tx| {
+            let keep = tx.validate_against_utxoset(&self.utxoset);
+            if !keep {
+                // release the inputs reserved by the dropped transaction
+                for input in tx.from.iter() {
+                    utxo_map.remove(&input.utxoset_key);
+                }
+            }
+            keep
+        });
         let block = self.get_block(block_hash).unwrap();
         // we call delete_tx after removing invalidated txs, to make sure routing work is calculated after removing all the txs
         mempool.delete_transactions(&block.transactions);
